@@ -156,7 +156,10 @@ func c04Oracle(sp *Spec, x *X, res *mcrt.Result) (string, string) {
 		}
 	}
 	k, d, rep := termOracle(sp, x, writes, w, h)
-	if k != "" {
+	if k != "" && !(sp.Pop && sp.Delay) {
+		// (pop mode under a render delay: cycles whose output was discarded advance a finished bar towards its pop
+		// frame unseen, so the screen model, which counts the frames it sees, cannot tell a popped row from a live
+		// one there; the clauses below, which do not depend on that count, still apply)
 		return k, d
 	}
 	{
@@ -574,7 +577,7 @@ func init() {
 			if tier == "thorough" {
 				// the two-bar programs of the quick tier once more, one deviation deeper (recorder output)
 				for _, sp := range c18Programs("quick") {
-					if !sp.Pty && !strings.Contains(sp.Name, "prio-window-auto") {
+					if !sp.Pty && !strings.Contains(sp.Name, "prio-window-auto") && len(sp.Bars) <= 4 {
 						items = append(items, specItems("C18", sp, 2, []int{mcrt.StratFIFO, mcrt.StratNewest}, c04Tags(sp), c04Oracle)...)
 					}
 				}
